@@ -426,6 +426,9 @@ def mov(_, instr, dst, src):
 
 
 def movq(_, instr, dst, src):
+    if src.size > 64:
+        # XMM source: only the low quadword is moved
+        src = src[:64]
     src_final = (src.zeroExtend(dst.size)
                  if dst.size >= src.size else
                  src[:dst.size])
